@@ -92,7 +92,7 @@ def segments(w, t, fnpath):
 def digest_desc(w, lf):
     t = w.sym.of_place(lf.body, 0, ())
     kind = w.roles.hash_fns.get(lf.path)
-    ins = [st for st in walk(t) if st[0] == "call" and st[1].endswith("Digest>::update")]
+    ins = [st for st in walk(t) if st[0] == "call" and (st[1].endswith("Digest>::update") or st[1] == "digest::Digest::update")]
     arg_ok = len(ins) == 1 and ins[0][2] == (("param", lf.path, 0, ()),)
     enc = t[0] == "call" and t[1] == "hex::encode"
     return kind, arg_ok and enc, term_str(t)[:100]
